@@ -449,9 +449,9 @@ fn main() {
 
     // (c) ENV: process::<N>
     let ns_pool: Vec<usize> = if thorough {
-        runx::N_ALL.iter().copied().filter(|&n| n <= 128).collect()
+        runx::N_ALL.to_vec() // every N in 1..=64, 65, 96, 127..129, 255, 256
     } else {
-        vec![1, 2, 3, 4, 5, 6, 7, 8, 9, 12, 16, 31, 32, 33, 64, 65]
+        vec![1, 2, 3, 4, 5, 6, 7, 8, 9, 12, 16, 17, 31, 32, 33, 63, 64, 65, 128]
     };
     let pool_streams = streams_from_pool(if thorough { 3 } else { 2 });
     let lex_streams: Vec<Vec<u8>> = {
@@ -459,7 +459,7 @@ fn main() {
         v.extend(lex::all_upto(SIGMA, if thorough { 4 } else { 3 }));
         v
     };
-    let ns_lex: Vec<usize> = if thorough { vec![1, 2, 3, 4, 5, 8, 16] } else { vec![1, 2, 3, 4, 8] };
+    let ns_lex: Vec<usize> = if thorough { vec![1, 2, 3, 4, 5, 6, 7, 8, 16] } else { vec![1, 2, 3, 4, 8] };
     let full_comp = if thorough { 12 } else { 10 };
     let mut env_execs = 0u64;
     let mut env_streams = 0u64;
